@@ -75,7 +75,7 @@ THEOREMS = [
         "cuts_as_documented crit_regimes_partition classify_elastic_spec classify_rb_spec classify_auto_rb_iff "
         # uncoupled equations with complex-dtype coefficients: rigid-body rows, finding F61 (Props/C01CplxUnc.lean)
         "complex_unc_rb_row_is_undamped isSol_unit_mass_scale complex_unc_rb_exact_partial "
-        "complex_unc_damped_rb_counterexample complex_recovery_real_part complex_recovery_spurious_imag_counterexample"
+        "complex_unc_damped_rb_counterexample complex_recovery_real_part complex_dtype_real_system_response_is_real"
     ).split()
 ]
 TRUSTED = [
@@ -150,8 +150,9 @@ PARTIAL = (
     "(2) the rigid-damped velocity-only regime is exact for the velocity only (by design of the source: "
     "rigidVelo_velocity_exact states the displacement defect); (3) uncoupled equations with complex-dtype coefficients: "
     "rigid-body rows are proved exact only when undamped (complex_unc_rb_exact_partial; the damped row is open finding "
-    "F61 with a proved counterexample), and when conjugate pairs were deleted the complex recovery leaves a spurious "
-    "imaginary part (new finding; the real part is proved to be the exact real recovery: complex_recovery_real_part); "
+    "F61 with a proved counterexample); the elastic rows run the full modal recurrence (conjugate pairs are deleted "
+    "only for real systems since repair 4a72d85, finding F62: complex_recovery_real_part, "
+    "complex_dtype_real_system_response_is_real; regression guard in the oracle); "
     "(4) cd_as_force (off-diagonal damping as force) belongs to C08 / C17, it is outside this property and not modelled "
     "here; (5) the cut-off constants are translated from the source and pinned (cuts_as_documented, "
     "crit_regimes_partition, classify_*_spec), but the switch errors they cause (|lam| < 5e-5, |w2/wo2| < 1e-8, "
@@ -1951,7 +1952,8 @@ def _corr_preeig(ctx, drv):
 # the implementation; the model-free oracle reports the damped rows under the family of F61.
 
 F61 = "tsolve-unc-complex-dtype-damped-rigid-body-mode-damping-ignored"
-CU_IMAG = "tsolve-unc-complex-dtype-conjugate-pairs-deleted-spurious-imaginary-part"
+# found by this check, repaired in /repo (fix: commit 4a72d85): kept as a regression guard
+FIXED_F62 = "tsolve-unc-complex-dtype-conjugate-pairs-deleted-spurious-imaginary-part"
 
 
 def _gen_cu(rng):
@@ -2032,15 +2034,11 @@ def _corr_cu(ctx, drv):
             U = np.vstack([np.asarray(pc.ur_v), np.asarray(pc.ur_d)])
             V = np.hstack([np.asarray(pc.ur_inv_v), np.asarray(pc.ur_inv_d)])
             if U.shape[0] != U.shape[1]:
-                # la.eig returned exactly conjugate pairs and delconj removed one of each (possible only with zero
-                # imaginary parts): the model is run on the kept data like the implementation (complex recovery of
-                # doubled eigenvectors: a spurious imaginary part, second finding of this path)
-                ctx.count("cu:conjugates-deleted")
-                sp = _delconj_spec(pc, A)
-                if isinstance(sp, str):
-                    ctx.skip("cu: " + sp)
-                    continue
-                res, cond = sp
+                # conjugate eigenvalue pairs are deleted only for real systems (repair 4a72d85, finding F62): for a
+                # complex systype the model runs the full modal recurrence with the complex recovery
+                ctx.disagree("cu-conjugates-deleted", inp, "pc holds %d of %d eigenvalues" % (len(lam), U.shape[0]),
+                             "no deletion for a complex systype")
+                continue
             else:
                 cond = float(np.linalg.cond(U))
                 res = max(np.abs(U @ V - np.eye(len(lam))).max(), np.abs(V @ U - np.eye(len(lam))).max(),
@@ -2944,6 +2942,19 @@ def _oracle_cu(s, fails):
         return np.max([np.abs(g - x).max(axis=1) / sc for g, x, sc in zip(got, r, (sd, sv, sa))], axis=0)
 
     TOL = 1e-7
+    if not s["eta"]:
+        # regression guard of finding F62 (repaired in 4a72d85): all coefficients, the force and the initial state are
+        # real, so the response is real: no imaginary part beyond round-off may come back
+        sc = [max(np.abs(g).max(), 1e-300) for g in got]
+        sc = [sc[0] + hh * sc[1], sc[1] + sc[0] / hh, sc[2] + sc[1] / hh]
+        imag = _note("complex-uncoupled-zero-imaginary-coefficients-imag", max(float(np.abs(g.imag).max() / c_) for g, c_ in zip(got, sc)))
+        if not imag <= 1e-12:
+            fails.append({"family": FIXED_F62,
+                          "what": "SolveUnc.tsolve, uncoupled equations given with a complex dtype but zero imaginary parts (%s "
+                                  "complex): the response has an imaginary part of %.3g (relative) although the solution is real "
+                                  "(conjugate eigenvalue pairs deleted, complex recovery used)" % (s["carrier"], imag),
+                          "input": inp, "observed": imag, "required": "<= 1e-12 (round-off)"})
+            got[:] = [g.real.astype(complex) for g in got]  # go on with the real parts
     e_true = rowerr(ref(np.array(b, complex)))
     _note("complex-uncoupled-SolveUnc", float(np.max(np.where(np.isin(np.arange(n), [i for i in rbs if b[i] != 0]), 0.0, e_true))))
     bad = [i for i in range(n) if not e_true[i] <= TOL]
@@ -2961,26 +2972,6 @@ def _oracle_cu(s, fails):
                               % (s["carrier"], s["eta"], bad, float(e_undamped.max()), float(e_true[bad].max())),
                       "input": inp, "observed": float(e_true[bad].max()), "required": "<= %g" % TOL})
         return
-    if not s["eta"]:
-        # all imaginary parts are zero: the solution is real.  Real parts right (up to F61 on damped rigid-body rows)
-        # and a spurious imaginary part on elastic rows = the conjugate pairs were deleted but recovered in complex
-        rr = ref(np.array(b, complex))
-        got_re = [g.real for g in got]
-        saved = got[:]
-        got[:] = got_re
-        e_re = rowerr([x.real for x in rr])
-        e_re0 = rowerr([x.real for x in ref(b0)])
-        got[:] = saved
-        imag = max(float(np.abs(g.imag).max()) for g in got)
-        el_bad = [i for i in bad if i not in damped_rb]
-        if el_bad and all(min(e_re[i], e_re0[i]) <= TOL for i in range(n)) and all(e_re[i] <= TOL for i in el_bad) and imag > 0:
-            fails.append({"family": CU_IMAG,
-                          "what": "SolveUnc.tsolve, uncoupled equations given with a complex dtype but zero imaginary parts (%s "
-                                  "complex): rows %s come back with an imaginary part up to %.3g although the solution is real "
-                                  "(the real parts are right to %.1e): conjugate eigenvalue pairs were deleted (delconj) but the "
-                                  "complex recovery ur_d @ y was used" % (s["carrier"], el_bad, imag, float(e_re[el_bad].max())),
-                          "input": inp, "observed": imag, "required": "imaginary part 0 (to round-off)"})
-            return
     fails.append({"family": "complex-uncoupled-SolveUnc-vs-expm-reference-order%d" % o,
                   "what": "SolveUnc.tsolve on uncoupled equations with complex-dtype coefficients differs from the exact hold "
                           "solution in rows %s (kinds %s) - not the damped-rigid-body pattern of F61" % (bad, [s["sub"][i] for i in bad]),
@@ -3066,7 +3057,8 @@ def _fixed_specs():
         # the reproducer of finding F61 (damped rigid-body row of an uncoupled complex-dtype system)
         dict(cu, n=2, m=[2.0, 3.0], b=[0.8, 0.3], k=[0.0, 50.0], kinds=["rb", "el"], sub=["rb-damped-full", "under"],
              F=[[float(x) for x in np.sin(3 * t)], [float(x) for x in np.cos(2 * t)]]),
-        # one under-damped mode, complex dtype with zero imaginary parts, on which la.eig returns an exactly conjugate pair
+        # finding F62 (repaired): one under-damped mode, complex dtype with zero imaginary parts, on which la.eig returns
+        # an exactly conjugate pair
         dict(cu, n=1, m=None, b=[0.1], k=[16.0], kinds=["el"], sub=["under"], F=[[float(x) for x in np.sin(3 * t)]]),
         dict(base, n=4, h=0.01, m=None, b=[0.0, 0.0, 2.0, 3.0], k=[1e6, 0.0, 400.0, 900.0], kinds=["rf", "rb", "el", "el"],
              sub=["rf", "rb-undamped", "under", "under"], rb=None, rf=[0], F=F),
